@@ -41,6 +41,12 @@ def generate(rng, tier):
                 L = gen.lanes_of(shape)
                 xs = gen.axis_q(rng, n, rng.choice(["uniform", "geometric", "random", "dyadic", "mesh64", "mesh64", "evenish", "nearly_even", "indexlike"]))
                 flat = gen.degenerate(rng, n, L, gen.vals_q(rng, n * L, rng.choice(["int", "dyadic", "rational"])))
+                if rng.random() < 0.2:
+                    # very fine / very coarse axes (mean interval 2^-30 .. 2^-17 or 2^17 .. 2^30; exact at Q): prescribed second derivatives
+                    # are in units of 1/x^2, prescribed first derivatives in 1/x (seed C03-r10m1: an axis rescaled inside the solve with the
+                    # user's SecondDeriv value converted like a first derivative)
+                    sc_ = Fr(2) ** (rng.choice([-1, 1]) * rng.randint(17, 30))
+                    xs = [x * sc_ for x in xs]
                 if l0 == "per":
                     bc, lanes = "per", "per"
                     flat[(n - 1) * L:] = flat[:L]
